@@ -112,7 +112,11 @@ def impl_construct(recipe):
             kw["metadata"] = build(recipe["meta"])
         return nir.NIRGraph(nodes=nodes, edges=[(a, b) for a, b in recipe["edges"]], **kw)
     cls = getattr(nir, kind)
-    return cls(**{k: build(v) for k, v in recipe["kwargs"]})
+    n = cls(**{k: build(v) for k, v in recipe["kwargs"]})
+    if "types" in recipe:       # explicit assignment of the public type attributes
+        n.input_type = build(recipe["types"][0])
+        n.output_type = build(recipe["types"][1])
+    return n
 
 
 def observe_construct(recipe):
